@@ -409,14 +409,17 @@ func (c09) Run(ctx *core.RunCtx) {
 				ctx.Harness("scratch poisoning found no scratch memory in %T", sys)
 			}
 		}
-		c09ArgModified = ""
+		c09ArgModified, c09Aux = "", 0
 		sysSt := c09Exec(func() error { return op.call(sys, op0, op1, k, out) })
 		if c09ArgModified != "" {
 			ctx.Fail("inputs", sc.name+"|"+op.name+"|argument-modified", "%s modified %s", op.name, c09ArgModified)
 			return
 		}
+		sysAux := c09Aux
+		c09Aux = 0
 		twin := sc.newEval()
 		twinSt := c09Exec(func() error { return op.call(twin, t0, t1, k, tout) })
+		twinAux := c09Aux
 		ctx.Event("step %d %s(%s) k=%d %s poison=%d op0(l=%d,d=%d) -> sys %s / twin %s", s, op.name, kindName(op1), k, patName, nPoison, op0.Level(), op0.Degree(), []string{"ok", "error", "panic"}[sysSt.kind], []string{"ok", "error", "panic"}[twinSt.kind])
 		cls := sc.name + "|" + op.name + "(" + kindName(op1) + ")|" + aliasClass(patName)
 		ctx.Count("oracle.twin-step", 1)
@@ -480,6 +483,10 @@ func (c09) Run(ctx *core.RunCtx) {
 				ctx.Fail("result", cls+"|op0-differs", "%s updates its first operand differently on the used evaluator than on a pristine one: %s", op.name, w)
 				return
 			}
+		}
+		if sysAux != twinAux {
+			ctx.Fail("result", cls+"|other-outputs-differ", "%s with %s: the outputs other than the designated one differ from those of a pristine evaluator with distinct outputs (k=%d)", op.name, patName, k)
+			return
 		}
 		// (c) same ciphertext
 		if ok, w := eqCt(params, out, tout); !ok {
